@@ -90,7 +90,8 @@ func (v *vclock) after(s *sim, st rig.StepResult, ctx stepCtx) {
 			}
 		}
 	}
-	if ctx.kind == "in" {
+	if ctx.kind == "in" || ctx.kind == "garbage" {
+		// (a frame that cannot be parsed is still something received: the counterparty is not silent)
 		v.lastIn = v.now
 	}
 	// (1a) a Heartbeat carries a TestReqID only as the answer to a TestRequest: over the whole
@@ -248,8 +249,12 @@ func (v *vclock) check(s *sim) {
 	if !pending && v.now-v.lastIn > peerWindow {
 		vk.Violation(s.t, c, "C20/silent-peer-without-test-request", "nothing received for %v (1.2 x HeartBtInt = %v) and no TestRequest pending (state %s)\n%s", v.now-v.lastIn, peerWindow, st, s.history())
 	}
-	if pending && v.now-v.testReqAt > peerWindow {
-		vk.Violation(s.t, c, "C20/dead-peer-not-disconnected", "TestRequest sent %v ago, nothing received since, still connected (state %s)\n%s", v.now-v.testReqAt, st, s.history())
+	quietSince := v.testReqAt
+	if v.lastIn > quietSince {
+		quietSince = v.lastIn // (only an unparsable frame leaves the state pending)
+	}
+	if pending && v.now-quietSince > peerWindow {
+		vk.Violation(s.t, c, "C20/dead-peer-not-disconnected", "TestRequest sent %v ago, nothing received for %v, still connected (state %s)\n%s", v.now-v.testReqAt, v.now-quietSince, st, s.history())
 	}
 }
 
@@ -332,6 +337,23 @@ func c20Property(t *rapid.T) {
 			relogon()
 		},
 		"engineSend": func(t *rapid.T) { s.engineSend(); s.flush() },
+		"garbage": func(t *rapid.T) {
+			// a frame the stream framer hands over but the message parser refuses (MsgType not the
+			// third field / BodyLength wrong): no message, but the line is evidently not dead
+			if !s.r.V.IsConnected() {
+				return
+			}
+			raw := []byte(rapid.SampledFrom([]string{"8=" + cfg.begin + "\x019=5\x0134=1\x0110=000\x01", "8=" + cfg.begin + "\x019=999\x0135=0\x0134=1\x0110=000\x01"}).Draw(t, "garbage"))
+			ctx := s.ctxFor("garbage", raw, false)
+			s.logf("garbage in %s (state %s)", vk.Show(raw), ctx.stateBefore)
+			st := s.r.In(raw)
+			s.observe(st, ctx)
+			v.feat["unparsable-frame"] = true
+			if strings.HasPrefix(ctx.stateBefore, "pending(") {
+				v.feat["unparsable-frame-while-pending"] = true
+			}
+			relogon()
+		},
 	})
 	c.Eval()
 	c.Class("role:" + map[bool]string{true: "initiator", false: "acceptor"}[cfg.initiator])
